@@ -58,7 +58,10 @@ def cases(tier, seed):
     A = rs("j/a", [["string", "s"], ["varint", "n"]], ["'va'", "1"])
     A2 = rs("j/a", [["varint", "n"], ["bytes", "b"]], ["2", "b'zz'"])
     B = rs("j/b", [["datetime", "ts"], ["string[]", "l"]], ["dt(2020,1,1,tz=UTC)", "['x']"])
-    shapes = {"A": A, "A2": A2, "B": B}
+    N1 = rs("j/n", [["string", "s"], ["varint", "n"], ["float", "f"], ["boolean", "b"]], ["None", "None", "None", "None"])
+    N2 = rs("j/n", [["string", "s"], ["varint", "n"], ["float", "f"], ["boolean", "b"]], ["'x'", "2**70", "0.25", "True"])
+    N3 = rs("j/n", [["string", "s"], ["varint", "n"], ["float", "f"], ["boolean", "b"]], ["'5'", "5", "5.0", "False"])
+    shapes = {"A": A, "A2": A2, "B": B, "N1": N1, "N2": N2, "N3": N3}
     for k in (1, 2, 3):
         for seq in itertools.product(shapes, repeat=k):
             yield {"kind": "seq", "t": "seq", "shape": list(seq), "records": [shapes[s] for s in seq]}
@@ -127,15 +130,15 @@ def expected_json_value(v):
     return repr(v)
 
 
-def json_eq(a, b):
+def json_eq(a, b, strict_bool=True):
     if isinstance(a, float) and isinstance(b, float):
         return (a != a and b != b) or (a == b and str(a) == str(b))
-    if isinstance(a, bool) != isinstance(b, bool) and isinstance(a, int) and isinstance(b, int):
-        return int(a) == int(b)  # a boolean may be spelled true/false or 1/0: the statement does not pin the spelling
+    if not strict_bool and isinstance(a, bool) != isinstance(b, bool) and isinstance(a, int) and isinstance(b, int):
+        return int(a) == int(b)  # inside lists a boolean may be spelled true/false or 1/0 (not pinned); a boolean *field* is a JSON boolean
     if type(a) is not type(b) and not (isinstance(a, (int, float)) and isinstance(b, (int, float)) and not isinstance(a, bool) and not isinstance(b, bool)):
         return False
     if isinstance(a, list):
-        return len(a) == len(b) and all(json_eq(x, y) for x, y in zip(a, b))
+        return len(a) == len(b) and all(json_eq(x, y, False) for x, y in zip(a, b))
     if isinstance(a, dict):
         return a.keys() == b.keys() and all(json_eq(a[k], b[k]) for k in a)
     return a == b
